@@ -220,3 +220,46 @@ def term_key(j):
     """Hashable structural key of a JSON term (for distinct counting)."""
     import json
     return json.dumps(j, sort_keys=True, separators=(",", ":"))
+
+
+# ---------------------------------------------------------------------------
+# building through the PUBLIC constructors (constructor normalisations apply)
+_PUBLIC = {
+    "and": "And", "or": "Or", "not": "Not", "implies": "Implies", "iff": "Iff",
+    "plus": "Plus", "minus": "Minus", "times": "Times", "div": "Div", "pow": "Pow",
+    "le": "LE", "lt": "LT", "equals": "Equals", "ite": "Ite", "toreal": "ToReal",
+    "bv_not": "BVNot", "bv_and": "BVAnd", "bv_or": "BVOr", "bv_xor": "BVXor",
+    "bv_concat": "BVConcat", "bv_ult": "BVULT", "bv_ule": "BVULE", "bv_neg": "BVNeg",
+    "bv_add": "BVAdd", "bv_sub": "BVSub", "bv_mul": "BVMul", "bv_udiv": "BVUDiv",
+    "bv_urem": "BVURem", "bv_lshl": "BVLShl", "bv_lshr": "BVLShr", "bv_slt": "BVSLT",
+    "bv_sle": "BVSLE", "bv_comp": "BVComp", "bv_sdiv": "BVSDiv", "bv_srem": "BVSRem",
+    "bv_ashr": "BVAShr", "bv_tonatural": "BVToNatural",
+    "str_length": "StrLength", "str_concat": "StrConcat", "str_contains": "StrContains",
+    "str_indexof": "StrIndexOf", "str_replace": "StrReplace", "str_substr": "StrSubstr",
+    "str_prefixof": "StrPrefixOf", "str_suffixof": "StrSuffixOf", "str_to_int": "StrToInt",
+    "int_to_str": "IntToStr", "str_charat": "StrCharAt",
+    "array_select": "Select", "array_store": "Store",
+}
+
+
+def build_public(j, env, memo=None):
+    """Re-create the term through the public FormulaManager constructors."""
+    mgr = env.formula_manager
+    o = j["op"]
+    kids = [build_public(c, env) for c in j["a"]]
+    if o in ("symbol", "bool_constant", "int_constant", "real_constant", "bv_constant", "str_constant"):
+        return build(j, env)
+    if o == "function":
+        return mgr.Function(mgr.Symbol(j["n"], build_type(j["ty"], env)), kids)
+    if o in ("forall", "exists"):
+        vs = [mgr.Symbol(v["n"], build_type(v["ty"], env)) for v in j["bv"]]
+        return (mgr.ForAll if o == "forall" else mgr.Exists)(vs, kids[0])
+    if o == "array_value":
+        return mgr.Array(build_type(j["ty"], env), kids[0], dict(zip(kids[1::2], kids[2::2])))
+    if o == "bv_extract":
+        return mgr.BVExtract(kids[0], j["i"][1], j["i"][2])
+    if o in ("bv_rol", "bv_ror"):
+        return (mgr.BVRol if o == "bv_rol" else mgr.BVRor)(kids[0], j["i"][1])
+    if o in ("bv_zext", "bv_sext"):
+        return (mgr.BVZExt if o == "bv_zext" else mgr.BVSExt)(kids[0], j["i"][1])
+    return getattr(mgr, _PUBLIC[o])(*kids)
